@@ -55,7 +55,10 @@ def task(args):
         recipe = {"family": "crystal", "material": name, "structure": st, "kind": kind, "miller": "".join(map(str, miller)) if kind == "slab" else "-",
                   "layers": layers, "pbcz": bool(pbcz), "noise": noise, "n": len(b)}
         for k in range(S):
-            ss = seed_strategy(b, rng, allow=CRYSTAL_STRATS)
+            if os.environ.get("SURVEY_UNIFORM3"):
+                ss = {"kind": "script", "strategy": "uniform3", "prio": [int(x) for x in rng.choice(len(b), 3, replace=False)], "then": "rand", "r": int(rng.integers(0, 2**31 - 1))}
+            else:
+                ss = seed_strategy(b, rng, allow=CRYSTAL_STRATS)
             spec = {"property": "C02", "seed": 777, "world": key, "tier": "thorough", "instances": {}, "structures": {"s0": atoms_to_spec(b, recipe)},
                     "ops": [{"op": "CLUSTER", "s": "s0", "params": {}, "seedspec": ss, "inst": "fresh", "expect": {"kind": "single", "dim": 3 if kind == "bulk" else 2}}]}
             s = run_world(spec)
@@ -80,6 +83,9 @@ if __name__ == "__main__":
     if only:
         want = set(only.split(","))
         cl = [c for c in cl if "%s:%s:%s:L%d:%s" % (c[0], c[1], "".join(map(str, c[2])) if c[1] == "slab" else "-", c[3], "T" if c[4] else "F") in want]
+    if os.environ.get("SURVEY_ELEMENTS_SLABS"):
+        el = dict(gens.ELEMS)
+        cl = [c for c in cl if c[0] in el and c[1] == "slab"]
     print(len(cl), "classes", flush=True)
     with ProcessPoolExecutor(16, mp_context=mp.get_context("fork")) as ex, open(out, "w") as f:
         for rec in ex.map(task, [(c, P, S, maxn) for c in cl], chunksize=1):
